@@ -38,7 +38,13 @@ func SerializeKey(key jwk.Key) ([]byte, error) {
 	switch r := rawKey.(type) {
 	case []byte: // Symmetric keys
 		return r, nil
-	case *rsa.PrivateKey, *ecdsa.PrivateKey, ed25519.PrivateKey: // Private keys: marshal as PKCS#8
+	case *ecdsa.PrivateKey: // Private keys: marshal as PKCS#8
+		// x509 writes D into a buffer of the curve's size and panics if it does not fit; a JWK can carry such a value
+		if r.Curve == nil || r.D == nil || r.D.BitLen() > r.Curve.Params().N.BitLen() {
+			return nil, errors.New("invalid EC private key: d is larger than the curve order")
+		}
+		return x509.MarshalPKCS8PrivateKey(r)
+	case *rsa.PrivateKey, ed25519.PrivateKey: // Private keys: marshal as PKCS#8
 		return x509.MarshalPKCS8PrivateKey(r)
 	case *rsa.PublicKey, *ecdsa.PublicKey, ed25519.PublicKey: // Public keys: marshal as PKIX
 		return x509.MarshalPKIXPublicKey(r)
